@@ -94,6 +94,10 @@ class Check(BaseCheck):
     def search_cases(self):
         yield from oriented_cases(self.seed + 122, 10 if self.quick else 80)
         rng = gen.rng_for(self.seed, "c17shape")
+        for k in range(2 if self.quick else 8):          # sharp creases with very unequal triangle sizes on the two sides
+            h = float(rng.uniform(0.04, 0.08))
+            v, t = gen.lens(int(rng.integers(10, 16)), h, float(rng.uniform(0.72, 0.8)), float(rng.uniform(0.5, 0.7)) * h, float(rng.uniform(0.0, 0.3)))
+            yield dict(v=v @ gen.random_rotation(rng).T, t=t, name="lens", smoothit=int(rng.integers(0, 11)))
         for k in range(8 if self.quick else 40):
             inward = bool(k % 2)
             if (k // 2) % 2 == 0:
